@@ -2,6 +2,7 @@ package c18
 
 import (
 	"context"
+	"encoding/json"
 	"errors"
 	"fmt"
 	"io"
@@ -33,6 +34,11 @@ type optTuple struct {
 	Hdr      string // value of X-H ("" = no header)
 	Init     string // value of init payload member "t" ("" = no payload)
 	Method   common.SSEMethod
+	// collision menu (pairs_test.go): literal headers / init payload instead of Hdr / Init
+	Headers http.Header
+	RawInit bool
+	InitMap map[string]any
+	Kind    string // which component this menu entry varies
 }
 
 var optTuples = map[string]optTuple{
@@ -58,29 +64,38 @@ func (o optTuple) options() common.Options {
 		opts.Transport = common.TransportSSE
 		opts.SSEMethod = o.Method
 	}
-	if o.Hdr != "" {
+	switch {
+	case o.Headers != nil:
+		opts.Headers = o.Headers.Clone()
+	case o.Hdr != "":
 		opts.Headers = http.Header{"X-H": []string{o.Hdr}}
 	}
-	if o.Init != "" {
+	switch {
+	case o.RawInit:
+		opts.InitPayload = o.InitMap
+	case o.Init != "":
 		opts.InitPayload = map[string]any{"t": o.Init}
 	}
 	return opts
 }
 
 // handshake is what the upstream must have seen on a connection that carries a
-// subscription with these options.
+// subscription with these options: endpoint, offered sub-protocols, application
+// headers as a server sees them, connection_init payload as canonical JSON (a
+// nil map is "no payload"; an empty non-nil map is the payload {} - that is what
+// the protocols' Init puts on the wire, omitempty does not drop a non-nil
+// interface value).
 func (o optTuple) handshake() string {
+	opts := o.options()
 	url := strings.Replace(o.Endpoint, "ws://", "http://", 1)
-	hdr := ""
-	if o.Hdr != "" {
-		hdr = "X-H=" + o.Hdr + ";"
-	}
+	hdr := canonHdr(opts.Headers)
 	if o.SSE {
 		return fmt.Sprintf("sse url=%s method=%s hdr=%s", url, o.Method, hdr)
 	}
 	init := ""
-	if o.Init != "" {
-		init = fmt.Sprintf(`{"t":%q}`, o.Init)
+	if opts.InitPayload != nil {
+		b, _ := json.Marshal(opts.InitPayload)
+		init = canonJSON(b)
 	}
 	return fmt.Sprintf("ws url=%s protos=%s hdr=%s init=%s", url, strings.Join(o.Proto.Subprotocols(), ","), hdr, init)
 }
@@ -114,6 +129,8 @@ type scenario struct {
 	Ticks []time.Duration
 	Twin  *scenario // the same scenario without the cancellations (nil for a scenario without cancellers)
 	Solo  int       // 1+j: only subscriber j exists (reference run of j on its own)
+	// ShareClass (collision pairs): structural class of a sharing finding
+	ShareClass string
 }
 
 func (sc *scenario) hasCancel() bool {
@@ -295,6 +312,7 @@ func (st *subState) handler(in *instance) common.Handler {
 // body builds a fresh client + upstream and spawns the actors.
 func (sc *scenario) body(s *sched.Sched) *instance {
 	in := &instance{sc: sc, s: s}
+	lastInstance = in
 	fuseG, selSticky = 0, false
 	root, cancel := context.WithCancel(context.Background())
 	in.rootCancel = cancel
@@ -400,6 +418,9 @@ func (in *instance) finish() {
 }
 
 var baseGoroutines int
+
+// lastInstance is the instance built by the most recent body call.
+var lastInstance *instance
 
 // cleanup tears the instance down; afterwards no goroutine of this execution is left.
 func (in *instance) cleanup() int {
